@@ -171,6 +171,21 @@ CLAIMED = {
         note="The reference reproduces the NIST Hash_DRBG example vectors. bn_rand_mod is modelled for positive bounds; for "
              "negative bounds only range / sign / determinism are asserted.",
         tech="model-based property testing (Hypothesis histories) against an SP 800-90A Hash_DRBG reference model, state compared per step"),
+    "C16": dict(
+        text="Generated-input search over the binary-field module (add, multiply in every algorithm, square, reduce incl. "
+             "exact double-length inputs, invert in every algorithm, square root, trace, half-trace / quadratic solving, "
+             "iterated squaring with tables, exponentiation, digit forms, the quadratic extension fb2) for every reduction "
+             "polynomial of the build's degree, and over the binary curves B-283 / K-283 (thorough: 163, 233, 409, 571 "
+             "bits): group law in affine / Lopez-Dahab coordinates with points [m]G + [t]S incl. the 2-power torsion, "
+             "halving, Frobenius, every scalar multiplication (binary, Lopez-Dahab ladder, halving, w-NAF, tau-NAF, "
+             "fixed-base with each table, simultaneous forms) for scalars 0, +-1, n-1, n, n+1, multiples of n, negative, "
+             "longer than the order. Oracle = pure-Python GF(2^m) model (polynomial read from the library and proven "
+             "irreducible by Rabin's test) and an affine binary-Weierstrass group law; reduced form, input preservation, "
+             "two storage poisons.",
+        note="Trusts the Python GF(2^m) / curve reference (self-tested: FIPS-197 field, NIST polynomials, exhaustive GF(2^7) "
+             "/ GF(2^8), [n]G = O on B-283 / K-283). Plain-curve NAF variants may refuse scalars longer than their buffer "
+             "with a cleanly reported error.",
+        tech=PBT + "an independent GF(2^m) polynomial-arithmetic reference and affine binary-curve group law (differential + alias / poison metamorphic oracles)"),
     "C17": dict(
         text="Generated-input search over the Edwards module on Ed25519 (255-bit build): group law in affine / projective / "
              "extended coordinates for ALL operands incl. the neutral element and the points of order 2, 4, 8, every "
